@@ -253,6 +253,63 @@ def pipeline_change_sequences(run):
                             theorem="C01 (recovery; not a theorem)")
 
 
+def relative_window_cases(run):
+    """contact-point-relative intervals that reach only a little into the
+    baseline, with an initial contact point off by 2.5 % of the approach
+    range (inside the stated basin) towards either side: the first estimate
+    of the contact point comes from the whole segment, so the generating
+    parameters are recovered"""
+    from nanite import model
+    for mk in ("hertz_para", "hertz_cone", "sneddon_spher_approx"):
+        for cp, off, rx in ((3e-7, 2e-7, [-1.5e-6, 1e-7]),
+                            (-2e-7, 2e-7, [-1e-6, 1.5e-7]),
+                            (3e-7, -2e-7, [-1.5e-6, 1e-7]),
+                            (1e-6, 2e-7, [-2e-6, 5e-8]),
+                            # shallow analysis: only the first 150 nm of the
+                            # indentation (the initial contact point lies
+                            # farther out in the baseline than that)
+                            (3e-7, 2e-7, [-1.5e-7, 2e-6]),
+                            (-2e-7, 2.2e-7, [-1e-7, 1e-6])):
+            for seg in (0, 1):
+                true = fits.default_params(mk, E=5000.0, contact_point=cp,
+                                           baseline=1e-11)
+                cols = fits.model_curve(mk, true, n_app=400, n_ret=200)
+                span = float(np.ptp(cols["tip position"]))
+                cfg = {"relative-window": mk, "contact_point": cp,
+                       "initial offset": off, "range_x": rx, "segment": seg}
+                key = "relative-window:" + common.sha(cfg)[:16]
+                run.case(cfg, kind="relative-window")
+                try:
+                    idnt = curves.make_indentation(cols)
+                    p = model.models_available[mk].get_parameter_defaults()
+                    p["E"].set(value=3000.0)
+                    p["contact_point"].set(value=cp + off)
+                    with warnings.catch_warnings():
+                        warnings.simplefilter("ignore")
+                        idnt.fit_model(model_key=mk, params_initial=p,
+                                       segment=seg, weight_cp=0,
+                                       range_type="relative cp",
+                                       range_x=list(rx))
+                    fp = idnt.fit_properties
+                    why = None
+                    if not fp.get("success"):
+                        why = "fit reports success False"
+                    else:
+                        pf = fp["params_fitted"]
+                        eE = abs(pf["E"].value / true["E"] - 1)
+                        ec = abs(pf["contact_point"].value - cp) / span
+                        if eE > 1e-5 or ec > 1e-6:
+                            why = (f"recovered E {pf['E'].value!r} (error "
+                                   f"{eE:.2e}), contact point error "
+                                   f"{ec:.2e} of the range")
+                except BaseException as e:
+                    why = f"raised {type(e).__name__}: {e}"
+                if why:
+                    run.failing(SITE, key, f"{cfg}: {why}",
+                                payload={"kind": "rerun"},
+                                theorem="C01 (recovery; not a theorem)")
+
+
 def default_guess_sequences(run):
     """the documented workflow 'get the initial parameters, edit them, fit',
     followed by a fit with the library's own initial guess
@@ -568,8 +625,9 @@ def check(run):
         "and the noise-proportional tolerance are runtime behaviour of "
         "third-party numerical code: explored by the recovery sweep with a "
         "frozen basin and frozen tolerances, not proved",
-        "uniqueness of the exact fit is proved for power laws only (sphere "
-        "series and layered model: zero-residual theorem only)",
+        "uniqueness of the exact fit: from four abscissae for the power "
+        "laws, from the whole curve (every abscissa) for the sphere series "
+        "and the layered model",
     ]
     run.extra["basin"] = BASIN
     run.extra["tolerances(E,cp/span,bl/Fmax)"] = TOL
@@ -627,6 +685,7 @@ def check(run):
     refit_sequences(run)
     default_guess_sequences(run)
     pipeline_change_sequences(run)
+    relative_window_cases(run)
     geometry_cases(run)
     geometry_relative_cases(run)
     process_state_cases(run)
